@@ -17,7 +17,11 @@ code says NOW (Proofs/CompareGlue.v proves "generated = hand model" for all inpu
   * the refusal test atol >= 1 (gen_refuse_atol) and the verdict expression at every `return return_handler(...)` site with
     the positional order of (return_message, quiet) (gen_values_returns, gen_compare_returns, gen_rec_returns);
   * compare_molrecs: the keys massage_dicts touches, in order (gen_massage_keys), the keywords forwarded to compare_recursive
-    and quiet=(verbose == 0) (gen_mol_forward, gen_mol_quiet); ProtoModel.compare: the forwarding call.
+    and quiet=(verbose == 0) (gen_mol_forward, gen_mol_quiet); ProtoModel.compare: the forwarding call;
+  * ProtoModel.dict: the expression assigned to kwargs["exclude"] (translated structurally: `|` builds a new set), the
+    exclude_unset default / override, that no statement of the method works in place (gen_dict_exclude, gen_dict_exclude_unset,
+    gen_dict_shared_after); ProtoModel.Config's defaults (gen_shared0, gen_protoflags0); serialize's option blocks and json's
+    forwarding call (gen_serialize_forwards, gen_serialize_kw); no other file of the package names serialize_default_excludes.
 Statements that only build message texts are checked not to assign any verdict-relevant name and to contain no
 return / raise.  Fail-closed: any other statement or expression shape raises TranslateError."""
 import ast
@@ -62,9 +66,9 @@ def _u(node):
     return ast.unparse(node)
 
 
-def _expect(node, text, what):
+def _expect(node, text, what, src=SRC):
     if _u(node) != text:
-        _fail(node, f"{what}: expected `{text}`, found")
+        _fail(node, f"{what}: expected `{text}`, found", src)
 
 
 # ------------------------------------------------------------------------------------------------------
@@ -706,6 +710,135 @@ def tr_protomodel(tree, out):
 
 
 # ------------------------------------------------------------------------------------------------------
+# ProtoModel.dict / serialize / json and the Config defaults (the shared class-level exclude set)
+
+SHARED_ATTR = "self.__config__.serialize_default_excludes"
+MUTATORS = {"add", "update", "discard", "remove", "clear", "pop", "intersection_update", "difference_update",
+            "symmetric_difference_update", "append", "extend", "insert", "__ior__", "__iand__", "__isub__", "__ixor__", "setattr"}
+
+
+def _set_expr(node):
+    """an expression over sets built WITHOUT modifying any operand -> Gallina (list string)"""
+    if isinstance(node, ast.BinOp) and isinstance(node.op, ast.BitOr):
+        return f"(sunion {_set_expr(node.left)} {_set_expr(node.right)})"
+    if isinstance(node, ast.BoolOp) and isinstance(node.op, ast.Or) and len(node.values) == 2 and _u(node.values[1]) == "set()":
+        if _u(node.values[0]) != "kwargs.get('exclude', None)":
+            _fail(node, "ProtoModel.dict: expected kwargs.get('exclude', None) or set()", BASEMODELS)
+        return "(or_empty (kw_exclude kw))"
+    if _u(node) == SHARED_ATTR:
+        return "shared"
+    _fail(node, "ProtoModel.dict: set expression outside the translated fragment", BASEMODELS)
+
+
+def _method(cls, name):
+    found = [m for m in cls.body if isinstance(m, ast.FunctionDef) and m.name == name]
+    if len(found) != 1:
+        raise TranslateError(f"{BASEMODELS}: expected exactly one ProtoModel.{name}")
+    return found[0]
+
+
+def tr_model_dict(tree, out):
+    cls = [n for n in tree.body if isinstance(n, ast.ClassDef) and n.name == "ProtoModel"]
+    if len(cls) != 1:
+        raise TranslateError(f"{BASEMODELS}: class ProtoModel not found")
+    cls = cls[0]
+    # Config: the defaults every subclass inherits
+    cfg = [n for n in cls.body if isinstance(n, ast.ClassDef) and n.name == "Config"]
+    if len(cfg) != 1:
+        raise TranslateError(f"{BASEMODELS}: ProtoModel.Config not found")
+    vals = {}
+    for st in cfg[0].body:
+        if isinstance(st, ast.AnnAssign) and isinstance(st.target, ast.Name) and st.value is not None:
+            vals[st.target.id] = st.value
+        elif isinstance(st, ast.Assign) and len(st.targets) == 1 and isinstance(st.targets[0], ast.Name):
+            vals[st.targets[0].id] = st.value
+        elif not (isinstance(st, ast.Expr) and isinstance(st.value, ast.Constant)):
+            _fail(st, "ProtoModel.Config: unexpected statement", BASEMODELS)
+    for k in ("serialize_default_excludes", "serialize_skip_defaults", "force_skip_defaults"):
+        if k not in vals:
+            raise TranslateError(f"{BASEMODELS}: ProtoModel.Config.{k} not found")
+    if _u(vals["serialize_default_excludes"]) != "set()":
+        _fail(vals["serialize_default_excludes"], "Config.serialize_default_excludes: expected the empty set", BASEMODELS)
+    out["config0"] = (const(vals["serialize_skip_defaults"], (bool,), "Config.serialize_skip_defaults"),
+                      const(vals["force_skip_defaults"], (bool,), "Config.force_skip_defaults"))
+    # nothing in the module may write the shared configuration (reads only inside ProtoModel.dict, translated below)
+    for n in ast.walk(tree):
+        if isinstance(n, (ast.Attribute, ast.Name)) and isinstance(getattr(n, "ctx", None), (ast.Store, ast.Del)):
+            nm = n.attr if isinstance(n, ast.Attribute) else n.id
+            if nm in ("serialize_default_excludes", "serialize_skip_defaults", "force_skip_defaults", "__config__") and not (
+                    isinstance(n, ast.Name) and any(n is st.target or n in getattr(st, "targets", []) for st in cfg[0].body)):
+                _fail(n, "the shared model configuration is written", BASEMODELS)
+    # dict(self, **kwargs)
+    m = _method(cls, "dict")
+    if [a.arg for a in m.args.args] != ["self"] or m.args.kwarg is None or m.args.kwarg.arg != "kwargs" or m.args.vararg \
+            or m.args.kwonlyargs or m.args.defaults:
+        _fail(m.args, "ProtoModel.dict: parameters changed", BASEMODELS)
+    b = _body(m)
+    if len(b) != 6:
+        _fail(m, "ProtoModel.dict: body changed (expected 6 statements)", BASEMODELS)
+    _expect(b[0], "encoding = kwargs.pop('encoding', None)", "ProtoModel.dict", BASEMODELS)
+    st = b[1]
+    if not (isinstance(st, ast.Assign) and len(st.targets) == 1 and _u(st.targets[0]) == "kwargs['exclude']"):
+        _fail(st, "ProtoModel.dict: expected the assignment to kwargs['exclude']", BASEMODELS)
+    out["dict_exclude"] = _set_expr(st.value)
+    _expect(b[2], "kwargs.setdefault('exclude_unset', self.__config__.serialize_skip_defaults)", "ProtoModel.dict", BASEMODELS)
+    _expect(b[3], "if self.__config__.force_skip_defaults:\n    kwargs['exclude_unset'] = True", "ProtoModel.dict", BASEMODELS)
+    out["dict_exclude_unset"] = ("if force_skip fl then true else match kw_exclude_unset kw with Some b => b | None => skip_defaults fl end")
+    _expect(b[4], "data = super().dict(**kwargs)", "ProtoModel.dict", BASEMODELS)
+    st = b[5]
+    if not (isinstance(st, ast.If) and _u(st.test) == "encoding is None" and _u(st.body[0]) == "return data" and len(st.body) == 1):
+        _fail(st, "ProtoModel.dict: expected `if encoding is None: return data`", BASEMODELS)
+    # no statement of the method modifies an object in place (a set built by `|` is new; `|=`, .update(), .add() are not)
+    for n in ast.walk(m):
+        if isinstance(n, (ast.AugAssign, ast.NamedExpr, ast.Delete, ast.Global, ast.Nonlocal)):
+            _fail(n, "ProtoModel.dict: in-place statement", BASEMODELS)
+        if isinstance(n, ast.Call) and isinstance(n.func, ast.Attribute) and n.func.attr in MUTATORS | {"setdefault"} \
+                and _u(n.func.value) != "kwargs":
+            _fail(n, "ProtoModel.dict: a method that modifies its object is called on something other than kwargs", BASEMODELS)
+    if sum(1 for n in ast.walk(m) if isinstance(n, ast.Attribute) and n.attr == "serialize_default_excludes") != 1:
+        _fail(m, "ProtoModel.dict: the shared exclude set is used outside the translated expression", BASEMODELS)
+    out["dict_shared_after"] = "shared"
+    # serialize(self, encoding, *, include, exclude, exclude_unset, exclude_defaults, exclude_none)
+    m = _method(cls, "serialize")
+    names = ["include", "exclude", "exclude_unset", "exclude_defaults", "exclude_none"]
+    if [a.arg for a in m.args.args] != ["self", "encoding"] or [a.arg for a in m.args.kwonlyargs] != names or m.args.kwarg or m.args.vararg \
+            or any(_u(d) != "None" for d in m.args.kw_defaults):
+        _fail(m.args, "ProtoModel.serialize: parameters changed", BASEMODELS)
+    b = _body(m)
+    if len(b) != len(names) + 3:
+        _fail(m, "ProtoModel.serialize: body changed", BASEMODELS)
+    _expect(b[0], "kwargs = {}", "ProtoModel.serialize", BASEMODELS)
+    for st, nm in zip(b[1:1 + len(names)], names):
+        _expect(st, f"if {nm}:\n    kwargs['{nm}'] = {nm}", "ProtoModel.serialize", BASEMODELS)
+    _expect(b[-2], "data = self.dict(**kwargs)", "ProtoModel.serialize", BASEMODELS)
+    _expect(b[-1], "return serialize(data, encoding=encoding)", "ProtoModel.serialize", BASEMODELS)
+    out["serialize_forwards"] = names
+    m = _method(cls, "json")
+    b = _body(m)
+    if len(b) != 1 or _u(b[0]) != "return self.serialize('json', **kwargs)":
+        _fail(m, "ProtoModel.json: expected the forwarding call", BASEMODELS)
+
+
+def render_dict(x):
+    L = []
+    w = L.append
+    w("(* ProtoModel.dict: what is handed to pydantic, and the class-level exclude set shared by all models afterwards *)")
+    w(f"Definition gen_dict_exclude (shared : list string) (kw : dictkw) : list string := {x['dict_exclude']}.")
+    w(f"Definition gen_dict_exclude_unset (fl : clsflags) (kw : dictkw) : bool :=\n  {x['dict_exclude_unset']}.")
+    w(f"Definition gen_dict_shared_after (shared : list string) (kw : dictkw) : list string := {x['dict_shared_after']}.")
+    w("Definition gen_shared0 : list string := [].")
+    skip, force = x["config0"]
+    w(f"Definition gen_protoflags0 : clsflags := {{| skip_defaults := {cbool(skip)}; force_skip := {cbool(force)} |}}.")
+    w("(* ProtoModel.serialize: `if <option>: kwargs[<option>] = <option>` for these options, then self.dict(kwargs...) *)")
+    w("Definition gen_serialize_forwards : list string := [" + "; ".join(coqrun.cstr(k) for k in x["serialize_forwards"]) + "].")
+    w("Definition gen_serialize_kw (exclude : option (list string)) (exclude_unset : option bool) : dictkw :=\n"
+      "  {| kw_exclude := if truthy_set exclude then exclude else None;\n"
+      "     kw_exclude_unset := if truthy_bool exclude_unset then exclude_unset else None |}.")
+    w("")
+    return "\n".join(L)
+
+
+# ------------------------------------------------------------------------------------------------------
 
 def extract(repo):
     tree = _parse(repo, SRC)
@@ -716,7 +849,21 @@ def extract(repo):
     tr_rec_inner(_fn(tree, "_compare_recursive"), out)
     tr_rec(_fn(tree, "compare_recursive"), out)
     tr_molrecs(_fn(tree, "compare_molrecs"), out)
-    tr_protomodel(_parse(repo, BASEMODELS), out)
+    bm = _parse(repo, BASEMODELS)
+    tr_protomodel(bm, out)
+    tr_model_dict(bm, out)
+    # the shared exclude set is named nowhere else in the package (a subclass Config overriding it, or code updating it)
+    pkg = os.path.join(repo, "qcelemental")
+    for root, _, files in os.walk(pkg):
+        for f in files:
+            path = os.path.join(root, f)
+            if f.endswith(".py") and os.path.relpath(path, repo) != BASEMODELS and os.sep + "tests" + os.sep not in path:
+                try:
+                    with open(path) as fh:
+                        if "serialize_default_excludes" in fh.read():
+                            raise TranslateError(f"{os.path.relpath(path, repo)}: names serialize_default_excludes (outside the translated fragment)")
+                except OSError as e:
+                    raise TranslateError(f"cannot read {path}: {e}")
     # the public names must be these functions (qcelemental.compare_values etc.)
     init = _parse(repo, os.path.join("qcelemental", "__init__.py"))
     found = False
@@ -735,7 +882,7 @@ def render(x):
     w = L.append
     w("(* GENERATED by harness/translate/cmpglue.py from qcelemental/testing.py and models/basemodels.py -- do not edit *)")
     w("From Coq Require Import PrimFloat ZArith List Bool String.")
-    w("Require Import QV.Common.Corr QV.Model.Compare.")
+    w("Require Import QV.Common.Corr QV.Model.Compare QV.Model.ModelDict.")
     w("Import ListNotations.")
     w("Local Open Scope string_scope.")
     w("")
@@ -802,6 +949,7 @@ def render(x):
     w("Definition gen_mol_forward : list string := [" + "; ".join(coqrun.cstr(k) for k in x["mol_forward"]) + "].")
     w("Definition gen_mol_quiet (verbose : Z) : bool := Z.eqb verbose 0.")
     w("")
+    w(render_dict(x))
     return "\n".join(L)
 
 
